@@ -20,6 +20,7 @@ units.UNITS['Disasm'] = strunits.gen_disasm
 units.UNITS['Asm'] = strunits.gen_asm
 units.UNITS['Clir'] = clunits.gen_clir
 units.UNITS['JitLogic'] = clunits.gen_jitlogic
+units.UNITS['ClAlu'] = clunits.gen_clalu
 
 
 def main():
